@@ -116,8 +116,15 @@ pub fn c28_case(src: &mut Src, obs: &mut Obs) -> CaseResult {
                 match mode {
                     0 => {}
                     1 => {
-                        v = other_type(&val);
-                        what = " [wrongly typed]".into();
+                        if src.bool() {
+                            v = other_type(&val);
+                            what = " [wrongly typed]".into();
+                        } else {
+                            // the right value, but wrapped in a variant once more: type v, not the
+                            // property's type
+                            v = variant(&val);
+                            what = " [wrongly typed: the value inside another variant]".into();
+                        }
                     }
                     2 => {
                         pname = format!("{}x", p.name);
